@@ -57,7 +57,17 @@ def parse_json_lines(text):
     return out
 
 
-def run_tlc(module, cfg, env=None, workers=16, timeout=900, simulate=None, seed=None, deque=False,
+def run_tlc(module, cfg, **kw):
+    """run_tlc_once, retried (at most twice) when the JVM was killed by a signal it did not cause itself."""
+    for attempt in range(3):
+        res = run_tlc_once(module, cfg, **kw)
+        if res.rc in (143, 137, -15, -9) and not res.timed_out:
+            continue
+        break
+    return res
+
+
+def run_tlc_once(module, cfg, env=None, workers=16, timeout=900, simulate=None, seed=None, deque=False,
             coverage=False, name=None, keep=False, jvm_mem='8g', extra=None, dump_dot=None, difftrace=False):
     """Run TLC on /verif/spec/<module>.tla with config text `cfg`.
 
